@@ -1,7 +1,9 @@
 """Translator: protocol message classes -> lean/OPM/Gen/Schemas.lean  (property C26)
 
 Read from the code on every run
-  * `openpectus.protocol.serialization._message_namespaces` / `_message_namespace_names`
+  * the protocol namespaces, from the public surface: the modules in which the `MessageBase` subclasses that exist
+    after importing `openpectus.protocol.serialization` are defined (= what `serialize()` writes as `_ns`); no
+    private variable of serialization.py is read
   * every attribute of those namespaces that `deserialize` would accept as `_type`: classes that are
     subclasses of `MessageBase` (including aliases such as `AM.SuccessMessage = Msg.SuccessMessage`)
   * for each such class and every pydantic model reachable from its fields: `model_fields` (annotation,
@@ -286,13 +288,37 @@ class Collector:
             return ".dynamic"
 
 
+_ns_cache: list = []
+
+
+def namespaces() -> list:
+    """The protocol namespace modules, sorted by name: every module under openpectus.protocol that defines a
+    MessageBase subclass (`cls.__module__`, which is what serialize() emits as `_ns`)."""
+    import sys
+    if _ns_cache:
+        return list(_ns_cache)
+    import openpectus.protocol.serialization  # noqa: F401  (imports the message modules)
+    import openpectus.protocol.messages as M
+    seen, todo, mods = set(), [M.MessageBase], set()
+    while todo:
+        c = todo.pop()
+        if c in seen:
+            continue
+        seen.add(c)
+        todo.extend(c.__subclasses__())
+        if c.__module__.startswith("openpectus.protocol."):
+            mods.add(c.__module__)
+    _ns_cache.extend(sys.modules[m] for m in sorted(mods))
+    return list(_ns_cache)
+
+
 def collect():
     """(namespace names, entries, collector). entries: (ns, attr, cls or None, note)."""
-    import openpectus.protocol.serialization as S
     import openpectus.protocol.messages as M
     col = Collector()
     entries = []
-    for ns in S._message_namespaces:
+    nss = namespaces()
+    for ns in nss:
         for attr in sorted(dir(ns)):
             obj = getattr(ns, attr, None)
             if inspect.isclass(obj) and issubclass(obj, M.MessageBase):
@@ -304,7 +330,7 @@ def collect():
                     continue
                 if any(p.kind is p.VAR_KEYWORD for p in sig.parameters.values()):
                     entries.append((ns.__name__, attr, None, "callable taking **kwargs"))
-    return list(S._message_namespace_names), entries, col
+    return [m.__name__ for m in nss], entries, col
 
 
 def opaque_fields() -> dict[type, dict[str, str]]:
